@@ -230,6 +230,8 @@ def _table(f, mode, post=None):
 
 
 def _boolish(e):
+    if isinstance(e, ast.IfExp):
+        return _boolish(e.body) and _boolish(e.orelse)
     return isinstance(e, (ast.Compare, ast.BoolOp)) or (isinstance(e, ast.UnaryOp) and isinstance(e.op, ast.Not)) \
         or (isinstance(e, ast.Constant) and isinstance(e.value, bool)) \
         or (isinstance(e, ast.Call) and isinstance(e.func, ast.Subscript))
